@@ -2,4 +2,10 @@ import Pearl.Gen.Consts
 namespace Pearl.Tie.C12
 theorem default_dirty_limit : Gen.DEFAULT_MAX_DIRTY_BYTES = 32 * 1024 * 1024 := by decide
 theorem background_io_threshold : Gen.MAX_SYNC_OPERATION_SIZE = 81920 := by decide
+/-- `Inner::fsyncdata` takes the in-progress flag by compare-exchange, releases it through a guard that lives in an inner
+    scope, and looks at the active blob again after that scope, inside a loop: the protocol of
+    `SyncProto.recheckOnly` (= the repair of E23) -/
+theorem background_sync_shape :
+    Gen.BACKGROUND_SYNC_SHAPE = ["loop", "guard-in-inner-scope", "recheck-after-release", "cas"] := by decide
+
 end Pearl.Tie.C12
